@@ -51,7 +51,7 @@ fn fresh(dict: &Rc<JapaneseDictionary>, mode: Mode, req: Option<u32>, text: &str
     match r { Ok(Ok(v)) => json!({"res": "ok", "ms": v}), Ok(Err(_)) => json!({"res": "err"}), Err(m) => json!({"res": "panic", "msg": m}) }
 }
 
-struct Sess { tok: StatefulTokenizer<Rc<JapaneseDictionary>>, list: MorphemeList<Rc<JapaneseDictionary>>, mode: Mode, req: Option<u32>, dict: Rc<JapaneseDictionary> }
+struct Sess { tok: StatefulTokenizer<Rc<JapaneseDictionary>>, list: MorphemeList<Rc<JapaneseDictionary>>, mode: Mode, req: Option<u32>, dict: Rc<JapaneseDictionary>, rewrites: bool }
 
 fn apply(tr: &mut Trace, run: usize, s: &mut Sess, op: &Value, texts_by_len: &dyn Fn(u64) -> String) {
     match op["op"].as_str().unwrap() {
@@ -64,7 +64,7 @@ fn apply(tr: &mut Trace, run: usize, s: &mut Sess, op: &Value, texts_by_len: &dy
         "analyse" | "toolong" => {
             // refused inputs come in two kinds: too long as given (refused before any work), and short enough as given but
             // growing beyond the limit under normalisation (refused when the edits are committed; U+FDFA grows from 3 to 33 bytes)
-            let text = if op["op"] == "toolong" { if tr.n % 5 != 1 { "あ".repeat(16400) } else { "\u{FDFA}".repeat(2100) } } else if op.get("text").is_some() { from_cps(&op["text"]) } else { texts_by_len(op["n"].as_u64().unwrap()) };
+            let text = if op["op"] == "toolong" { if tr.n % 5 != 1 || !s.rewrites { "あ".repeat(16400) } else { "\u{FDFA}".repeat(2100) } } else if op.get("text").is_some() { from_cps(&op["text"]) } else { texts_by_len(op["n"].as_u64().unwrap()) };
             let r = catch(std::panic::AssertUnwindSafe(|| { s.tok.reset().push_str(&text); s.tok.do_tokenize() }));
             let res = match r { Ok(Ok(())) => "ok", Ok(Err(_)) => "err", Err(_) => "panic" };
             let f = fresh(&s.dict, s.mode, s.req, &text);
@@ -97,7 +97,7 @@ pub fn run(args: &[String]) -> i32 {
         run += 1;
         let w = &worlds[if li % 2 == 0 { 3 } else { 0 }]; // "full" / "plain"
         tr.emit(json!({"ev": "create", "run": run, "world": w.name, "plain": w.meta["n_path_rewrite"] == 0}));
-        let mut s = Sess { tok: StatefulTokenizer::new(w.dict.clone(), Mode::C), list: MorphemeList::empty(w.dict.clone()), mode: Mode::C, req: None, dict: w.dict.clone() };
+        let mut s = Sess { tok: StatefulTokenizer::new(w.dict.clone(), Mode::C), list: MorphemeList::empty(w.dict.clone()), mode: Mode::C, req: None, dict: w.dict.clone(), rewrites: w.meta["n_input_plugins"].as_u64().unwrap_or(0) > 0 };
         for op in h.as_array().unwrap() { apply(&mut tr, run, &mut s, op, &by_len); }
         if s_last_ok(h) { apply(&mut tr, run, &mut s, &json!({"op": "collect"}), &by_len); }
     }
@@ -107,7 +107,7 @@ pub fn run(args: &[String]) -> i32 {
         run += 1;
         let w = &worlds[[0usize, 3, 2, 6][k % 4]];
         tr.emit(json!({"ev": "create", "run": run, "world": w.name, "plain": w.meta["n_path_rewrite"] == 0}));
-        let mut s = Sess { tok: StatefulTokenizer::new(w.dict.clone(), Mode::C), list: MorphemeList::empty(w.dict.clone()), mode: Mode::C, req: None, dict: w.dict.clone() };
+        let mut s = Sess { tok: StatefulTokenizer::new(w.dict.clone(), Mode::C), list: MorphemeList::empty(w.dict.clone()), mode: Mode::C, req: None, dict: w.dict.clone(), rewrites: w.meta["n_input_plugins"].as_u64().unwrap_or(0) > 0 };
         let mut analysed_ok = false;
         for _ in 0..(5 + rng.below(36)) {
             let op = match rng.below(10) {
